@@ -2,6 +2,7 @@ package gvc
 
 import (
 	"encoding/json"
+	"flag"
 	"fmt"
 	"math"
 	"os"
@@ -109,6 +110,7 @@ func Replay(P *Program, r *Result, o *Oblig, rec map[string]interface{}, repo st
 	body = strings.ReplaceAll(body, "{{CLAUSE}}", goClause(clause))
 	body = strings.ReplaceAll(body, "{{LABEL}}", strconv.Quote(o.Name))
 	rec["replay_test"] = body
+	rec["replay_pkg"] = drv.Pkg
 	// run
 	scratch, err := os.MkdirTemp("", "gvcreplay")
 	if err != nil {
@@ -308,3 +310,159 @@ func loadDriver(block string) *driver {
 }
 
 func CmdSelftest(args []string) int { return 2 }
+
+// CmdReplay re-runs a replay file written by `gvc check`:
+//   - deductive counterexample with a replay test: the test is injected into
+//     the package again (go test -overlay) and must fail on the real code;
+//   - bounded stand-in failure: the stand-in of the property is run again and
+//     must report the same failure key;
+//   - otherwise (no failing input): the named obligation is regenerated from
+//     the current sources and discharged again.
+// Exit 1 when the violation is observed again, 0 when it is not.
+func CmdReplay(args []string) int {
+	fs := flag.NewFlagSet("replay", flag.ExitOnError)
+	repo := fs.String("repo", "/repo", "")
+	fs.Parse(args)
+	if fs.NArg() != 1 {
+		fmt.Println("usage: gvc replay [-repo DIR] <replay file>")
+		return 2
+	}
+	b, err := os.ReadFile(fs.Arg(0))
+	if err != nil {
+		fmt.Println(err)
+		return 2
+	}
+	rec := map[string]interface{}{}
+	if err := json.Unmarshal(b, &rec); err != nil {
+		fmt.Println("not a replay file:", err)
+		return 2
+	}
+	str := func(k string) string { s, _ := rec[k].(string); return s }
+	fmt.Printf("replay file %s\n", fs.Arg(0))
+	for _, k := range []string{"property", "obligation", "key", "path", "goal", "solver_answer", "input", "expected", "got", "replay"} {
+		if v := str(k); v != "" {
+			fmt.Printf("  %-14s %s\n", k+":", trunc(v, 600))
+		}
+	}
+	switch {
+	case str("replay_test") != "" && str("replay_pkg") != "":
+		scratch, err := os.MkdirTemp("", "gvcreplay")
+		if err != nil {
+			return 2
+		}
+		defer os.RemoveAll(scratch)
+		testFile := filepath.Join(scratch, "zz_gvc_replay_test.go")
+		os.WriteFile(testFile, []byte(str("replay_test")), 0o644)
+		ov := map[string]interface{}{"Replace": map[string]string{filepath.Join(*repo, str("replay_pkg"), "zz_gvc_replay_test.go"): testFile}}
+		ovb, _ := json.Marshal(ov)
+		ovFile := filepath.Join(scratch, "ov.json")
+		os.WriteFile(ovFile, ovb, 0o644)
+		cmd := exec.Command("bash", "-c", fmt.Sprintf("ulimit -v 8000000; cd %s && go test -overlay %s -vet=off -count=1 -timeout 60s -run '^TestGvcReplay$' -v ./%s/ 2>&1", *repo, ovFile, str("replay_pkg")))
+		cmd.Env = append(os.Environ(), "GOFLAGS=-mod=mod", "GOPROXY=off", "GOSUMDB=off", "GOTOOLCHAIN=local")
+		outb, _ := cmd.CombinedOutput()
+		fmt.Println(trunc(string(outb), 4000))
+		if strings.Contains(string(outb), "GVC-REPLAY-VIOLATED") {
+			fmt.Println("REPLAY: the counterexample fails on the real code")
+			return 1
+		}
+		fmt.Println("REPLAY: the counterexample does not fail on the current code")
+		return 0
+	case str("key") != "":
+		prop := strings.SplitN(str("key"), "/", 2)[0]
+		out := filepath.Join(os.TempDir(), fmt.Sprintf("gvcreplay_%d.json", os.Getpid()))
+		defer os.Remove(out)
+		cmd := exec.Command(filepath.Join(VerifDir, "bounded", "run.sh"), prop, "quick", "1", *repo, out)
+		cmd.Dir = filepath.Join(VerifDir, "bounded")
+		if ob, err := cmd.CombinedOutput(); err != nil {
+			fmt.Println("bounded stand-in did not run:", err, trunc(string(ob), 2000))
+			return 2
+		}
+		res := map[string]interface{}{}
+		jb, _ := os.ReadFile(out)
+		json.Unmarshal(jb, &res)
+		if fl, ok := res["failures"].([]interface{}); ok {
+			for _, f := range fl {
+				fm, _ := f.(map[string]interface{})
+				if k, _ := fm["key"].(string); k == str("key") {
+					fmt.Printf("REPLAY: the bounded stand-in reports %s again\n  input: %v\n  expected: %v\n  got: %v\n", k, fm["input"], fm["expected"], fm["got"])
+					return 1
+				}
+			}
+		}
+		fmt.Println("REPLAY: the bounded stand-in no longer reports", str("key"))
+		return 0
+	case str("kind") == "scan":
+		P, err := Load(*repo)
+		if err != nil {
+			fmt.Println("load:", err)
+			return 1
+		}
+		if err := P.ParseContracts(filepath.Join(VerifDir, "contracts"), filepath.Join(VerifDir, "spec")); err != nil {
+			fmt.Println(err)
+			return 2
+		}
+		r, _ := P.ScanObligations(str("property"))
+		for _, o := range r.Obligs {
+			if o.Name == str("obligation") {
+				if o.OK() {
+					fmt.Println("REPLAY: the site is justified on the current code:", o.Ans.Solver)
+					return 0
+				}
+				fmt.Println("REPLAY: still present and unjustified:", o.Where)
+				return 1
+			}
+		}
+		fmt.Println("REPLAY: the site no longer exists")
+		return 0
+	case str("obligation") != "":
+		P, err := Load(*repo)
+		if err != nil {
+			fmt.Println("load:", err)
+			return 1
+		}
+		if err := P.ParseContracts(filepath.Join(VerifDir, "contracts"), filepath.Join(VerifDir, "spec")); err != nil {
+			fmt.Println(err)
+			return 2
+		}
+		name := str("obligation")
+		for _, blk := range P.BlockL {
+			if (blk.Kind != "func" && blk.Kind != "closure") || !strings.HasPrefix(name, blk.Name+"/") {
+				continue
+			}
+			r := Verify(P, blk, Options{Canaries: false})
+			var keep []*Oblig
+			for _, o := range r.Obligs {
+				if o.Name == name {
+					keep = append(keep, o)
+				}
+			}
+			if r.Err != nil {
+				fmt.Println("REPLAY: the contract can no longer be checked:", firstLine(r.Err.Error()))
+				return 1
+			}
+			r.Obligs = keep
+			Discharge([]*Result{r}, 20000, 8)
+			bad := 0
+			for _, o := range keep {
+				fmt.Printf("  %s [%s %s %dms] path=%s\n", o.Name, o.Ans.Result, o.Ans.Solver, o.Ans.Ms, o.Path)
+				if !o.OK() {
+					bad++
+				}
+			}
+			if len(keep) == 0 {
+				fmt.Println("REPLAY: the obligation is no longer generated")
+				return 0
+			}
+			if bad > 0 {
+				fmt.Println("REPLAY: the obligation is still not discharged (no failing input found)")
+				return 1
+			}
+			fmt.Println("REPLAY: the obligation is discharged on the current code")
+			return 0
+		}
+		fmt.Println("REPLAY: no contract block for", name)
+		return 0
+	}
+	fmt.Println("REPLAY: nothing to re-run in this file")
+	return 0
+}
